@@ -2,11 +2,13 @@
 // Record: id, store (mem|cidmem|fs), config, ops, observation
 //   config: "-" for the in-memory stores; "<r12|r122|r133>,q<ab>" for fsstore, where a/b are the
 //           probed quirks of the tree under test (a=1: escapingFunc not applied; b=1: commit("") ok)
-//   ops (space separated):  n:<hex> new slice | m:<h>:<hex> overwrite slice h | p:<key>:<h> Put
+//           the store spec may carry ":hex" = a CUSTOM escaping function (upper-case hex) instead of base32
+//   ops (space separated):  n:<hex> new slice | N:<len.seed+len.seed..> new slice with generated content | m:<h>:<hex> overwrite slice h | p:<key>:<h> Put
 //           s:<key>:<h,h..> PutStream+Write*+commit | v:<key>:<h,h..> PutVec | g:<key> Get
 //           r:<key> GetStream (drained) | k:<key> Peek | h:<key> Has        (keys in hex)
 //           o: PutStream kept open (streams are numbered from 0) | w:<sid>:<h> Write slice h to stream sid
 //           c:<sid>:<key> commit stream sid under key
+//           (blocks above 2048 bytes are shown as B<len>:<md5> instead of hex, in tokens and listings)
 //   observation: one token per op:  - | ok | e:<errno> | b:<hex> | se:<errno> | t | f | unsup | badh | panic
 //           for fs every token whose operation changed the tree is followed by "#<listing>", and the
 //           first token is "init#<listing>": the listing is of the WHOLE fresh parent directory.
@@ -213,7 +215,7 @@ func runOps(be backend, ops []string, guard func(key string) bool, listing func(
 			if key != "" && guard != nil && !guard(key) {
 				continue
 			}
-		} else if f[0] != "n" && f[0] != "m" && f[0] != "o" && f[0] != "w" {
+		} else if f[0] != "n" && f[0] != "N" && f[0] != "m" && f[0] != "o" && f[0] != "w" {
 			key = lib.UnHex(f[1])
 			if guard != nil && !guard(key) {
 				continue
@@ -225,6 +227,9 @@ func runOps(be backend, ops []string, guard func(key string) bool, listing func(
 			switch f[0] {
 			case "n":
 				bufs = append(bufs, []byte(lib.UnHex(f[1])))
+				tok = "-"
+			case "N":
+				bufs = append(bufs, []byte(lib.BlobSpec(f[1])))
 				tok = "-"
 			case "m":
 				h, _ := strconv.Atoi(f[1])
@@ -264,7 +269,7 @@ func runOps(be backend, ops []string, guard func(key string) bool, listing func(
 					tok = putTok(err)
 				} else {
 					bufs = append(bufs, b)
-					tok = "b:" + lib.Hex(string(b))
+					tok = "b:" + lib.ContentTok(string(b))
 				}
 			case "k":
 				b, err, sup := be.peek(key)
@@ -274,7 +279,7 @@ func runOps(be backend, ops []string, guard func(key string) bool, listing func(
 					tok = putTok(err)
 				} else {
 					bufs = append(bufs, b)
-					tok = "b:" + lib.Hex(string(b))
+					tok = "b:" + lib.ContentTok(string(b))
 				}
 			case "r":
 				r, err, sup := be.getStream(key)
@@ -288,7 +293,7 @@ func runOps(be backend, ops []string, guard func(key string) bool, listing func(
 					if rerr != nil {
 						tok = "se:" + lib.StoreErrClass(rerr)
 					} else {
-						tok = "b:" + lib.Hex(string(b))
+						tok = "b:" + lib.ContentTok(string(b))
 					}
 				}
 			case "h":
@@ -372,8 +377,69 @@ func runCase(out *lib.Out, id, store, config string, ops []string) {
 // ------------------------------------------------------------------ generation
 
 type gen struct {
-	rng   *lib.Rng
-	store string
+	rng     *lib.Rng
+	store   string
+	esc     func(string) string   // the store's escaping function (fs only)
+	specOf  map[string]string     // generated blobs: content -> compact spec of the N: token
+	blobsOf map[string][]string   // big contents: content -> the blobs it is made of
+	escNext map[string]string     // key -> its escaped form, when that is a key of the history too
+}
+
+var blobSizes = []int{1, 100, 4095, 4096, 4097, 8192, 65536}
+
+// bigContent builds a block out of 2-4 generated blobs with sizes around the 4 KiB mark, in mixed order.
+func (g *gen) bigContent() string {
+	r := g.rng
+	n := 2 + r.Intn(3)
+	var blobs, specs []string
+	for i := 0; i < n; i++ {
+		sz := blobSizes[r.Intn(len(blobSizes))]
+		if sz == 65536 && r.Chance(60) {
+			sz = 4096
+		}
+		sd := r.Intn(1000)
+		blobs = append(blobs, lib.GenBlob(sz, sd))
+		specs = append(specs, fmt.Sprintf("%d.%d", sz, sd))
+	}
+	// every contiguous group of blobs can be named compactly
+	for i := 0; i < n; i++ {
+		for j := i + 1; j <= n; j++ {
+			g.specOf[strings.Join(blobs[i:j], "")] = strings.Join(specs[i:j], "+")
+		}
+	}
+	c := strings.Join(blobs, "")
+	g.blobsOf[c] = blobs
+	return c
+}
+
+// chunks of a content for a multi-write put: the blobs of a big content (neighbours sometimes merged),
+// three random pieces otherwise
+func (g *gen) chunksOf(c string) []string {
+	r := g.rng
+	if blobs, ok := g.blobsOf[c]; ok {
+		var out []string
+		for i := 0; i < len(blobs); i++ {
+			if i+1 < len(blobs) && r.Chance(20) {
+				out = append(out, blobs[i]+blobs[i+1])
+				i++
+			} else {
+				out = append(out, blobs[i])
+			}
+		}
+		return out
+	}
+	cut1, cut2 := r.Intn(len(c)+1), r.Intn(len(c)+1)
+	if cut1 > cut2 {
+		cut1, cut2 = cut2, cut1
+	}
+	return []string{c[:cut1], c[cut1:cut2], c[cut2:]}
+}
+
+func shortFlip(r *lib.Rng, c string) string {
+	if len(c) > 512 {
+		return r.BytesN(16)
+	}
+	return flip(c)
 }
 
 func contentFor(key string, variant int) string {
@@ -398,6 +464,8 @@ func (g *gen) shrink(c string) string {
 		return ""
 	case x < 24:
 		return string([]byte{byte(g.rng.Intn(256))})
+	case x < 32:
+		return g.bigContent()
 	}
 	return c
 }
@@ -451,11 +519,26 @@ func (g *gen) keySet() ([]string, map[string]string) {
 			add(k, g.shrink(contentFor(k, 0)))
 		}
 	}
+	// keys that are exactly the escaped form of another key of the history (and the escaped form of that)
+	if g.store == "fs" && g.esc != nil && r.Chance(40) {
+		k := keys[r.Intn(len(keys))]
+		if len(k) <= 60 {
+			e1 := g.esc(k)
+			add(e1, g.shrink(contentFor(e1, 0)))
+			g.escNext[k] = e1
+			if r.Chance(50) {
+				e2 := g.esc(e1)
+				add(e2, contentFor(e2, 0))
+				g.escNext[e1] = e2
+			}
+		}
+	}
 	return keys, content
 }
 
 func (g *gen) history() []string {
 	r := g.rng
+	g.escNext = map[string]string{}
 	keys, content := g.keySet()
 	var ops []string
 	type hinfo struct {
@@ -464,16 +547,25 @@ func (g *gen) history() []string {
 	}
 	var hs []hinfo
 	newBuf := func(c string) int {
-		ops = append(ops, "n:"+lib.Hex(c))
+		if sp, ok := g.specOf[c]; ok && len(c) > 512 {
+			ops = append(ops, "N:"+sp)
+		} else {
+			ops = append(ops, "n:"+lib.Hex(c))
+		}
 		hs = append(hs, hinfo{len(c), false})
 		return len(hs) - 1
 	}
+	last := ""
 	aliasProbe := r.Chance(15)   // writes through peeked slices: outside the contract, ties the aliasing model
 	inconsistent := r.Chance(10) // a second content for a key: outside the quantifier, ties first/last-write-wins
 	present := map[string]bool{}
 	nops := 8 + r.Intn(30)
 	for i := 0; i < nops; i++ {
 		k := keys[r.Intn(len(keys))]
+		if e, ok := g.escNext[last]; ok && r.Chance(60) {
+			k = e // an operation on escape(k) right after one on k
+		}
+		last = k
 		kh := lib.Hex(k)
 		c := content[k]
 		if inconsistent && r.Chance(30) {
@@ -485,22 +577,23 @@ func (g *gen) history() []string {
 			ops = append(ops, fmt.Sprintf("p:%s:%d", kh, h))
 			present[k] = true
 			if r.Chance(50) { // the heart of "insulated": scribble over the slice just handed to put
-				ops = append(ops, fmt.Sprintf("m:%d:%s", h, lib.Hex(flip(c))))
+				ops = append(ops, fmt.Sprintf("m:%d:%s", h, lib.Hex(shortFlip(r, c))))
 			}
 		case x < 32:
-			cut1, cut2 := r.Intn(len(c)+1), r.Intn(len(c)+1)
-			if cut1 > cut2 {
-				cut1, cut2 = cut2, cut1
+			parts := g.chunksOf(c)
+			var hh []string
+			for _, p := range parts {
+				hh = append(hh, strconv.Itoa(newBuf(p)))
 			}
-			a, b, d := newBuf(c[:cut1]), newBuf(c[cut1:cut2]), newBuf(c[cut2:])
 			t := "s"
 			if r.Bool() {
 				t = "v"
 			}
-			ops = append(ops, fmt.Sprintf("%s:%s:%d,%d,%d", t, kh, a, b, d))
+			ops = append(ops, fmt.Sprintf("%s:%s:%s", t, kh, strings.Join(hh, ",")))
 			present[k] = true
 			if r.Chance(40) {
-				ops = append(ops, fmt.Sprintf("m:%d:%s", b, lib.Hex(flip(c[cut1:cut2]))))
+				i := r.Intn(len(parts))
+				ops = append(ops, fmt.Sprintf("m:%s:%s", hh[i], lib.Hex(shortFlip(r, parts[i]))))
 			}
 		case x < 50:
 			ops = append(ops, "g:"+kh)
@@ -527,6 +620,9 @@ func (g *gen) history() []string {
 				if n < 0 {
 					n = len(content[k]) // handle numbering is only a guess after gets: any content will do
 				}
+				if n > 512 {
+					n = 16
+				}
 				ops = append(ops, fmt.Sprintf("m:%d:%s", h, lib.Hex(r.BytesN(n))))
 			}
 		}
@@ -548,11 +644,7 @@ func (g *gen) history() []string {
 			ops = append(ops, "o:")
 			s := &st{sid: nstreams, key: k}
 			nstreams++
-			cut1, cut2 := r.Intn(len(c)+1), r.Intn(len(c)+1)
-			if cut1 > cut2 {
-				cut1, cut2 = cut2, cut1
-			}
-			for _, part := range []string{c[:cut1], c[cut1:cut2], c[cut2:]} {
+			for _, part := range g.chunksOf(c) {
 				s.chunks = append(s.chunks, newBuf(part))
 			}
 			open = append(open, s)
@@ -702,6 +794,73 @@ func corpus(out *lib.Out) {
 			"p:" + k2 + ":1", "g:" + k1, "g:" + k2, "g:" + k3,
 			"p:" + k3 + ":2", "s:" + k4 + ":3", "g:" + k1, "g:" + k2, "g:" + k3, "g:" + k4, "g:" + k5})
 	}
+	// vectors and streams of blobs around the 4 KiB mark, in mixed orders: the stored block is the concatenation, in order
+	{
+		vecs := [][]string{
+			{"100.1", "4096.2"},                                   // a small blob before a large one
+			{"1.5", "4095.3", "4096.2", "4097.4", "100.1", "8192.6"},
+			{"4096.2", "1.5", "4096.8", "1.9", "4097.4"},
+			{"100.1", "65536.7", "1.5"},
+			{"65536.7", "4095.3", "8192.6", "100.1"},
+			{"4095.3", "4095.4"},
+		}
+		big := func(store, cfg string, keyOf func(content string, i int) string) {
+			for vi, v := range vecs {
+				content := lib.BlobSpec(strings.Join(v, "+"))
+				var ops []string
+				var hs []string
+				for i, sp := range v {
+					ops = append(ops, "N:"+sp)
+					hs = append(hs, strconv.Itoa(i))
+				}
+				ops = append(ops, "N:"+strings.Join(v, "+")) // the whole block as one slice
+				whole := strconv.Itoa(len(v))
+				k1, k2, k3 := lib.Hex(keyOf(content, 1)), lib.Hex(keyOf(content, 2)), lib.Hex(keyOf(content, 3))
+				ops = append(ops, "v:"+k1+":"+strings.Join(hs, ","), "h:"+k1, "g:"+k1, "r:"+k1, "k:"+k1,
+					"m:0:"+lib.Hex("scribble"),
+					"s:"+k2+":"+strings.Join(hs[1:], ","), "g:"+k2,
+					"p:"+k3+":"+whole, "g:"+k3, "r:"+k3,
+					"o:", "w:0:"+hs[len(hs)-1], "w:0:"+hs[len(hs)-1], "c:0:"+lib.Hex(keyOf(content, 4)), "g:"+lib.Hex(keyOf(content, 4)))
+				_ = vi
+				runCase(out, next(), store, cfg, ops)
+			}
+		}
+		plainKey := func(content string, i int) string { return fmt.Sprintf("bigblock-%d-%d", len(content), i) }
+		for _, sh := range []string{"r12", "r133", "r122:hex"} {
+			big("fs", sh, plainKey)
+		}
+		big("mem", "-", plainKey)
+		// cidlink.Memory: keys are the CIDs of what is stored under them, so only the whole-vector puts
+		for _, v := range vecs {
+			content := lib.BlobSpec(strings.Join(v, "+"))
+			var ops, hs []string
+			for i, sp := range v {
+				ops = append(ops, "N:"+sp)
+				hs = append(hs, strconv.Itoa(i))
+			}
+			k := lib.Hex(lib.RealCid(1, 0x55, 0x12, content))
+			ops = append(ops, "s:"+k+":"+strings.Join(hs, ","), "g:"+k, "o:")
+			for _, h := range hs {
+				ops = append(ops, "w:0:"+h)
+			}
+			k2 := lib.Hex(lib.RealCid(1, 0x71, 0x13, content))
+			ops = append(ops, "c:0:"+k2, "g:"+k2)
+			runCase(out, next(), "cidmem", "-", ops)
+		}
+	}
+	// a key that is exactly the escaped form of another key (and the escaped form of that): different keys
+	for _, sh := range []string{"r12", "r122", "r133", "r12:hex", "r133:hex"} {
+		esc := lib.EscapeOf(sh)
+		for _, k1 := range []string{"abc", "\x01\x55\x12\x20binary-ish-key", "MFRGG", "k"} {
+			e1 := esc(k1)
+			e2 := esc(e1)
+			a, b, d := lib.Hex(k1), lib.Hex(e1), lib.Hex(e2)
+			runCase(out, next(), "fs", sh, []string{"n:" + c, "n:" + c2, "n:" + lib.Hex("third"),
+				"p:" + a + ":0", "h:" + b, "g:" + a, "g:" + b, "h:" + a, "r:" + b,
+				"g:" + a, "p:" + b + ":1", "g:" + a, "g:" + b,
+				"h:" + b, "h:" + d, "g:" + b, "s:" + d + ":2", "g:" + b, "g:" + d, "g:" + a})
+		}
+	}
 	// long keys sharing a long prefix: never one answering for the other
 	for _, sh := range []string{"r12", "r122", "r133"} {
 		for _, p := range lib.LongPairs {
@@ -754,13 +913,14 @@ func main() {
 	corpus(out)
 	rng := lib.NewRng(fl.Seed)
 	stores := []string{"fs", "fs", "fs", "mem", "mem", "cidmem"}
-	shards := []string{"r12", "r122", "r133"}
+	shards := []string{"r12", "r122", "r133", "r12:hex", "r133:hex"}
 	for i := 0; i < n; i++ {
 		st := stores[i%len(stores)]
-		g := &gen{rng: rng.Fork(), store: st}
+		g := &gen{rng: rng.Fork(), store: st, specOf: map[string]string{}, blobsOf: map[string][]string{}}
 		cfg := "-"
 		if st == "fs" {
-			cfg = shards[(i/len(stores))%3]
+			cfg = shards[(i/len(stores))%len(shards)]
+			g.esc = lib.EscapeOf(cfg)
 		}
 		runCase(out, fmt.Sprintf("g%d", i), st, cfg, g.history())
 	}
